@@ -413,7 +413,10 @@ fn run_batches(c: &Config, seed: u64, stream: u64, n_batches: usize, per_batch: 
     let mut t = Tally::default();
     for b in 0..n_batches {
         let mut rng = Rng::derive(seed, &format!("C01:{}", c.label), stream * 1_000_003 + b as u64);
+        // Neumaier-compensated sum: millions of equal terms (the single tadpole is pointwise
+        // deterministic) otherwise accumulate a relative rounding error of n*eps
         let mut sum = 0.0;
+        let mut comp = 0.0;
         for _ in 0..per_batch {
             let before = rng.clone();
             let r = c.su.sampler.sample_rng::<f64, _>(&c.su.kin.masses, &c.su.kin.shifts, &st, &mut rng);
@@ -462,7 +465,13 @@ fn run_batches(c: &Config, seed: u64, stream: u64, n_batches: usize, per_batch: 
                             val = 0.0;
                         }
                     }
-                    sum += val;
+                    let t = sum + val;
+                    if sum.abs() >= val.abs() {
+                        comp += (sum - t) + val;
+                    } else {
+                        comp += (val - t) + sum;
+                    }
+                    sum = t;
                 }
                 Outcome::Err(e) => {
                     if e.starts_with("Gamma") {
@@ -474,7 +483,7 @@ fn run_batches(c: &Config, seed: u64, stream: u64, n_batches: usize, per_batch: 
                 Outcome::Panic(_) => t.panics += 1,
             }
         }
-        t.batch_means.push(sum / per_batch as f64);
+        t.batch_means.push((sum + comp) / per_batch as f64);
     }
     t
 }
@@ -496,7 +505,9 @@ fn z_of(t: &Tally, exact: f64) -> (f64, f64, f64) {
     let n = t.batch_means.len() as f64;
     let mean = t.batch_means.iter().sum::<f64>() / n;
     let var = t.batch_means.iter().map(|x| (x - mean) * (x - mean)).sum::<f64>() / (n - 1.0);
-    let se = (var / n).sqrt();
+    // resolution floor: closed forms, Gamma functions and powf agree to ~1e-13 at best; a
+    // (nearly) deterministic integrand must not turn that into an infinite z
+    let se = (var / n).sqrt() + 1e-11 * exact.abs();
     ((mean - exact) / se, mean, se)
 }
 
@@ -516,10 +527,10 @@ pub fn run(ctx: &Ctx) -> i32 {
     let qerr = crate::special::quadrature_self_test();
     if !(qerr < 1e-10) {
         out(&format!("INCONCLUSIVE property=C01 quadrature oracle self-test failed: {:e}", qerr));
-        return 3;
+        return inconclusive_exit();
     }
     let n_cfg_idx = ctx.n(30, 100);
-    let n1: usize = ctx.n(400_000, 16_000_000);
+    let n1: usize = ctx.n(400_000, 6_000_000);
     let batches = 64usize;
     // build the catalogue (deterministic in the seed)
     let mut configs: Vec<Config> = vec![];
